@@ -74,6 +74,7 @@ static int wipes_of_size(size_t n) {
 struct in_k7_keygen {
     struct dep_in dep; struct frame_in fr; struct seed_in s;
     unsigned coin; size_t key_size; uint8_t keybuf[32];
+    bool history; struct seed_in h_s; unsigned h_coin;     /* an arbitrary earlier derivation */
 };
 VF_DECL(k7_keygen)
 void k7_keygen(void) {
@@ -86,6 +87,13 @@ void k7_keygen(void) {
     seed_fill(&d, &IN.s); d0 = d;
     uint8_t key[32];
     for (int i = 0; i < 32; ++i) key[i] = IN.keybuf[i];
+    if (IN.history) {
+        seed_assume_inv(&IN.h_s); VASSUME(IN.h_coin < 2048);
+        polyseed_data hd; seed_fill(&hd, &IN.h_s);
+        uint8_t hk[32];
+        polyseed_keygen(&hd, (polyseed_coin)IN.h_coin, 32, hk);
+        dep_reset_logs();
+    }
     polyseed_keygen(&d, (polyseed_coin)IN.coin, IN.key_size, key);
     VASSERT(L_kdf_calls == 1, "K7 KDF invoked exactly once");
     VASSERT(L_kdf[0].pw == d.secret && L_kdf[0].pwlen == 32, "K7 password = the 32-byte secret buffer");
@@ -143,6 +151,7 @@ void k7_inject(void) {
 struct in_k8_crypt {
     struct dep_in dep; struct frame_in fr; struct seed_in s;
     char pw[PWMAX + 1];
+    bool history; struct seed_in h_s; char h_pw[4];        /* an arbitrary earlier password operation on another seed */
 };
 VF_DECL(k8_crypt)
 void k8_crypt(void) {
@@ -166,6 +175,13 @@ void k8_crypt(void) {
     const char* expect = ascii ? IN.pw : IN.dep.norm_out;
     size_t elen = 0; while (expect[elen] != '\0') elen++;
 
+    if (IN.history) {
+        seed_assume_inv(&IN.h_s);
+        IN.h_pw[3] = '\0';
+        polyseed_data hd; seed_fill(&hd, &IN.h_s);
+        polyseed_crypt(&hd, IN.h_pw);
+        dep_reset_logs();
+    }
     polyseed_crypt(&d, IN.pw);
 
     VASSERT(L_kdf_calls == 1, "K8 KDF invoked exactly once");
@@ -204,13 +220,18 @@ void k8_crypt(void) {
 }
 
 /* ======================= K9 create ===================================== */
-struct in_k9_create { struct dep_in dep; struct frame_in fr; unsigned features; };
+struct in_k9_create { struct dep_in dep; struct frame_in fr; unsigned features; bool history; unsigned h_features; };
 VF_DECL(k9_create)
 void k9_create(void) {
     struct in_k9_create IN = VF_IN(k9_create);
     dep_install(&IN.dep);
     struct frame fr; frame_begin(&fr, &IN.fr);
     polyseed_data dummy; polyseed_data* out = &dummy;
+    if (IN.history) {          /* an arbitrary earlier creation */
+        polyseed_data* hs = NULL;
+        (void)polyseed_create(IN.h_features, &hs);
+        dep_reset_logs();
+    }
     polyseed_status st = polyseed_create(IN.features, &out);
     unsigned feat = IN.features & 7u;
     if (!spec_supported(feat, IN.fr.mask)) {
@@ -258,7 +279,7 @@ void k9_create(void) {
 }
 
 /* ======================= P7 load ======================================= */
-struct in_p7_load { struct dep_in dep; struct frame_in fr; uint8_t buf[32]; };
+struct in_p7_load { struct dep_in dep; struct frame_in fr; uint8_t buf[32]; bool history; uint8_t h_buf[32]; };
 VF_DECL(p7_load)
 void p7_load(void) {
     struct in_p7_load IN = VF_IN(p7_load);
@@ -267,6 +288,12 @@ void p7_load(void) {
     polyseed_storage st_in;
     for (int i = 0; i < 32; ++i) st_in[i] = IN.buf[i];
     polyseed_data dummy; polyseed_data* out = &dummy;
+    if (IN.history) {          /* an arbitrary earlier load of another buffer */
+        polyseed_storage hb; polyseed_data* hs = NULL;
+        for (int i = 0; i < 32; ++i) hb[i] = IN.h_buf[i];
+        (void)polyseed_load(hb, &hs);
+        dep_reset_logs();
+    }
     polyseed_status st = polyseed_load(st_in, &out);
 
     /* expected outcome from the property text */
